@@ -21,6 +21,9 @@ pub struct XPlan {
     pub mode: String,
     pub inputs_via_stdin: bool,
     pub use_output_file: bool,
+    /// environment variables of the process (must not influence any output)
+    #[serde(default)]
+    pub env: Vec<(String, String)>,
 }
 
 #[derive(Clone, Debug, PartialEq, Serialize, Deserialize)]
@@ -84,6 +87,7 @@ fn invocation(sc: &XScenario, xp: &XPlan) -> Invocation {
         out_suffix: "out.json".into(),
         aslr_off: xp.aslr_off,
         out_path,
+        extra_env: xp.env.clone(),
     }
 }
 
@@ -106,7 +110,7 @@ pub fn gen_xscenario(rng: &mut Rng) -> XScenario {
         1 => "{\"k\": 3, \"xs\": [1, 2, 3]}".to_string(),
         _ => "{\"k\": \"s\", \"m\": {\"k\": 1}}".to_string(),
     };
-    let mut plans = vec![XPlan { plan: Plan::canonical(), aslr_off: false, mode: "file".into(), inputs_via_stdin: false, use_output_file: false }];
+    let mut plans = vec![XPlan { plan: Plan::canonical(), aslr_off: false, mode: "file".into(), inputs_via_stdin: false, use_output_file: false, env: vec![] }];
     for _ in 0..rng.range(2, 4) {
         let mut p = Plan::canonical();
         p.seed = 1 + rng.next_u64() % 1_000_000_007;
@@ -124,6 +128,25 @@ pub fn gen_xscenario(rng: &mut Rng) -> XScenario {
             mode: (*rng.pick(&["file", "inline", "eval"])).to_string(),
             inputs_via_stdin: rng.chance(1, 2),
             use_output_file: rng.chance(1, 4),
+            env: {
+                let mut e = vec![];
+                for (k, vals) in [
+                    ("NO_COLOR", &["<unset>", "1", ""][..]),
+                    ("TERM", &["dumb", "xterm-256color", "<unset>"][..]),
+                    ("LANG", &["C", "de_DE.UTF-8", "tr_TR.UTF-8"][..]),
+                    ("LC_ALL", &["C", "en_US.UTF-8", "<unset>"][..]),
+                    ("TZ", &["UTC", "Asia/Kolkata", "America/St_Johns"][..]),
+                    ("HOME", &["/nonexistent", "/tmp"][..]),
+                    ("RUST_BACKTRACE", &["1", "0", "<unset>"][..]),
+                    ("BLOTS_DEBUG", &["1", "<unset>"][..]),
+                    ("COLUMNS", &["20", "200"][..]),
+                ] {
+                    if rng.chance(1, 2) {
+                        e.push((k.to_string(), (*rng.pick(vals)).to_string()));
+                    }
+                }
+                e
+            },
         });
     }
     XScenario { program, inputs_json, plans }
